@@ -106,6 +106,7 @@ class HierCase(object):
             if len(set(sub_names)) == len(sub_names) == nt:
                 top = self.x_full[self.h.n_bottom:]
                 sub = chi.ReducedPopulationModel(models[j])
+                self._zero_some(rng, top, off + np.asarray(pick))
                 sub.fix_parameters({
                     sub_names[i]: float(top[off + i]) for i in pick})
                 models[j] = sub
@@ -121,6 +122,7 @@ class HierCase(object):
             names = self.top_names_full
             if len(set(names)) == len(names) and len(idx):
                 top = self.x_full[self.h.n_bottom:]
+                self._zero_some(rng, top, idx)
                 pm.fix_parameters({names[i]: float(top[i]) for i in idx})
                 self.free_top[idx] = False
         self.pm = pm
@@ -144,6 +146,17 @@ class HierCase(object):
                 pints.GaussianLogPrior(0.3, 2.0) for _ in range(n_free_top)])
             self.obj = chi.HierarchicalLogPosterior(self.hl, self.prior)
         return self.obj
+
+    def _zero_some(self, rng, top, idx):
+        """some of the values to be fixed are exactly zero (a log-mean of 0
+        is a median of 1, a coefficient of 0 is 'no effect')"""
+        self.fixed_at_zero = 0
+        if rng.random() < 0.4:
+            ok = GP.zeroable_mask(self.leaves, self.n_ids)
+            for i in np.atleast_1d(idx):
+                if ok[i] and rng.random() < 0.6:
+                    top[i] = 0.0
+                    self.fixed_at_zero += 1
 
     # ------------------------------------------------------------ reference
     def free_mask(self):
